@@ -150,6 +150,14 @@ func (o *Overloader) updateConnLimiter(limitConfig *LimitConfig) {
 	}
 	if o.connLimiter == nil {
 		o.connLimiter = newConnLimiter(limitConfig.MaxConn)
+		// the sessions admitted while no limit was configured occupy slots too:
+		// each of them releases one when it is disconnected
+		var n int32
+		o.admitted.Range(func(_, _ interface{}) bool {
+			n++
+			return true
+		})
+		o.connLimiter.occupy(n)
 	} else if o.limitConfig.MaxConn != limitConfig.MaxConn {
 		o.connLimiter.update(limitConfig.MaxConn)
 	}
